@@ -101,19 +101,20 @@ class C12(HistProp):
                 'Props.C12.set_spec', 'Props.C12.map_add_definite', 'Props.C12.map_add_indefinite', 'Props.C12.add_chunk_spec',
                 'Props.C12.capFor_bounds', 'Props.C12.C12_logarithmic', 'Props.C12.C12_growth']
     trusted_base = BASE_TRUST + HEAP_TRUST
-    rule = ('operation sequences on every container kind (definite/indefinite array and map, chunked string): exhaustive sequences of length <= 3 (4 thorough) '
-            'over push, set i, replace i, get i with i in 0..size+2, add-pair, add-chunk, definite capacities 0..4 (0..8 thorough); 3000 (20000 thorough) insertions into '
+    rule = ('operation sequences on every container kind (definite/indefinite array and map, chunked string): exhaustive sequences of length <= 3 (maps / chunked strings <= 6 in thorough) '
+            'over push, set i, replace i, get i with i in 0..size+2, add-pair, add-chunk, definite capacities 0..4 (0..8 thorough); 3000 (6000 thorough) insertions into '
             'each growing container with the reallocation count checked at every step; a refused growth reallocation at sizes 0,1,2,4,8 (insertion fails, container intact and still usable); container-biased random histories; compared step by step with a '
             'Python list model and with the Lean heap model; non-trivial = any container operation; distinct by (operation, result line)')
 
     def histories(self, tier, rng):
         th = tier == 'thorough'
-        hs = container_histories(['darr', 'dmap'], range(0, 9) if th else [0, 1, 2, 3, 4], 3 if th else 2)
-        hs += container_histories(['darr'], [1, 2, 3], 4 if th else 3)
-        hs += container_histories(['iarr', 'imap', 'stri'], [0], 4 if th else 3)
+        hs = container_histories(['darr', 'dmap'], range(0, 9) if th else [0, 1, 2, 3, 4], 2)
+        hs += container_histories(['darr'], [1, 2, 3] + ([4, 8] if th else []), 3)
+        hs += container_histories(['iarr', 'imap', 'stri'], [0], 3)
+        if th: hs += container_histories(['imap', 'stri'], [0], 6)
         hs += refused_growth_histories()
         for kind in ('arr', 'map', 'stri'):
-            hs.append(hist.growth_history(kind, 20000 if th else 3000))
+            hs.append(hist.growth_history(kind, 6000 if th else 3000))
         for i in range(400 if th else 40):
             hs.append(hist.history(rng, 120, profile='containers'))
         return hs
